@@ -1097,6 +1097,14 @@ func replay(args []string) {
 			fmt.Printf("FAIL %s: %s\n", fl.Key, fl.What)
 			bad++
 		}
+		if bin := os.Getenv("VERIF_ACHCLI"); bin != "" && strings.HasPrefix(c.Key, "cli:") {
+			if t1, err := writeText(f); err == nil {
+				for _, fl := range cliCheck(bin, tmp, f, t1, c.Input) {
+					fmt.Printf("FAIL %s: %s\n", fl.Key, fl.What)
+					bad++
+				}
+			}
+		}
 	}
 	if bad > 0 {
 		os.Exit(1)
@@ -1120,13 +1128,30 @@ func cli(args []string) {
 	}
 	tmp, _ := os.MkdirTemp("", "c07_cli_")
 	defer os.RemoveAll(tmp)
-	sum := summary{Kind: "summary", Dist: map[string]int{}, Samples: []any{}, Rule: "achcli -reformat json FILE.ach | achcli -reformat ach: output equals the library writer's text; distinct by text"}
+	sum := summary{Kind: "summary", Dist: map[string]int{}, Samples: []any{}, Rule: "achcli -reformat json FILE.ach | achcli -reformat ach: output equals the library writer's text; for a file carrying validation options (a third of the cases; half of those valid only under them): achcli -reformat ach of its JSON equals the library writer's text and achcli -reformat json of its JSON still carries the options; distinct by text"}
 	r := rng.FromEnv(0xC1C1)
 	seen := map[string]bool{}
 	for i := 0; i < *n; i++ {
 		f := genFile(r, i*5+i/4)
 		if f == nil || hasOffsetEntries(f) {
 			continue
+		}
+		label := fmt.Sprintf("cli:%d", i)
+		switch i % 3 {
+		case 1:
+			if g := needsOpts(f, r); g != nil {
+				f = g
+				sum.Dist["needs-opts"]++
+				label += ":needs-opts"
+			}
+		case 2:
+			o := randOpts(r)
+			applyOpts(f, o)
+			if !retabulate(f) {
+				applyOpts(f, nil)
+			} else {
+				sum.Dist["random-opts"]++
+			}
 		}
 		t1, err := writeText(f)
 		if err != nil {
@@ -1138,29 +1163,29 @@ func cli(args []string) {
 			sum.Distinct++
 		}
 		sum.Dist[secsOf(f)]++
-		tc := testCase{Label: fmt.Sprintf("cli:%d", i), ACH: t1}
+		tc := testCase{Label: label, ACH: t1}
+		if o := f.GetValidation(); o != nil {
+			tc.Opts, _ = json.Marshal(o)
+		}
 		if len(sum.Samples) < 3 {
 			sum.Samples = append(sum.Samples, map[string]any{"label": tc.Label, "kinds": secsOf(f), "bytes": len(t1)})
 		}
-		pa, pj := filepath.Join(tmp, "in.ach"), filepath.Join(tmp, "mid.json")
-		os.WriteFile(pa, []byte(t1), 0o600)
-		js, err := exec.Command(*bin, "-reformat", "json", pa).Output()
-		if err != nil {
-			put(failure{Kind: "fail", Key: "cli:reformat-json:error", What: firstLine(err.Error() + " " + string(js)), Case: tc})
-			continue
+		for _, fl := range cliCheck(*bin, tmp, f, t1, tc) {
+			put(fl)
 		}
-		os.WriteFile(pj, js, 0o600)
-		t2, err := exec.Command(*bin, "-reformat", "ach", pj).Output()
-		if err != nil {
-			k := "cli:reformat-ach:error"
-			if hasCATXZeroAddenda(f) {
-				k = "json:catx:zero-addenda-records" // the return variant: the re-packed count makes the batch invalid
-			}
-			put(failure{Kind: "fail", Key: k, What: firstLine(err.Error() + " " + string(t2)), Case: tc})
-			continue
-		}
-		if string(t2) != t1 {
-			k, what := diffKey(t1, string(t2))
+	}
+	put(sum)
+}
+
+// cliCheck drives the built achcli binary: text -> JSON -> text for a file without stored
+// options, and JSON -> text / JSON -> JSON for one that carries options (achcli reads them
+// from the JSON document; -validate is not given).
+func cliCheck(bin, tmp string, f *ach.File, t1 string, tc testCase) (fails []failure) {
+	put := func(fl failure) { fails = append(fails, fl) }
+	pa, pj := filepath.Join(tmp, "in.ach"), filepath.Join(tmp, "mid.json")
+	classify := func(t2 string) {
+		if t2 != t1 {
+			k, what := diffKey(t1, t2)
 			switch {
 			case hasCATXZeroAddenda(f) && catxNameCols.MatchString("text-diff:"+k):
 				k = "json:catx:zero-addenda-records"
@@ -1170,7 +1195,62 @@ func cli(args []string) {
 			put(failure{Kind: "fail", Key: k, What: what, Case: tc})
 		}
 	}
-	put(sum)
+	achErrKey := func() string {
+		if hasCATXZeroAddenda(f) {
+			return "json:catx:zero-addenda-records" // the return variant: the re-packed count makes the batch invalid
+		}
+		return "cli:reformat-ach:error"
+	}
+	if f.GetValidation() == nil {
+		os.WriteFile(pa, []byte(t1), 0o600)
+		js, err := exec.Command(bin, "-reformat", "json", pa).Output()
+		if err != nil {
+			put(failure{Kind: "fail", Key: "cli:reformat-json:error", What: firstLine(err.Error() + " " + string(js)), Case: tc})
+			return
+		}
+		os.WriteFile(pj, js, 0o600)
+		t2, err := exec.Command(bin, "-reformat", "ach", pj).Output()
+		if err != nil {
+			put(failure{Kind: "fail", Key: achErrKey(), What: firstLine(err.Error() + " " + string(t2)), Case: tc})
+			return
+		}
+		classify(string(t2))
+		return
+	}
+	// a file with stored options: its JSON (library encoder) is what achcli is given
+	js, err := json.Marshal(f)
+	if err != nil {
+		return
+	}
+	os.WriteFile(pj, js, 0o600)
+	t2, err := exec.Command(bin, "-reformat", "ach", pj).Output()
+	if err != nil {
+		k := achErrKey()
+		if k == "cli:reformat-ach:error" {
+			k = "cli:opts:reformat-ach:error"
+		}
+		put(failure{Kind: "fail", Key: k, What: "achcli -reformat ach refuses the JSON of a file valid under its stored options: " + firstLine(err.Error()+" "+string(t2)), Case: tc})
+	} else {
+		classify(string(t2))
+	}
+	js2, err := exec.Command(bin, "-reformat", "json", pj).Output()
+	if err != nil {
+		put(failure{Kind: "fail", Key: "cli:opts:reformat-json:error", What: "achcli -reformat json refuses the JSON of a file valid under its stored options: " + firstLine(err.Error()+" "+string(js2)), Case: tc})
+		return
+	}
+	var doc struct {
+		ValidateOpts *ach.ValidateOpts `json:"validateOpts"`
+	}
+	if err := json.Unmarshal(js2, &doc); err != nil {
+		put(failure{Kind: "fail", Key: "cli:opts:reformat-json:not-json", What: firstLine(err.Error()), Case: tc})
+		return
+	}
+	want, _ := json.Marshal(f.GetValidation())
+	got, _ := json.Marshal(doc.ValidateOpts)
+	if string(want) != string(got) {
+		put(failure{Kind: "fail", Key: "cli:opts:lost", What: fmt.Sprintf("validateOpts after achcli -reformat json: %s, stored on the file: %s", got, want), Case: tc})
+	}
+	return
 }
 
 // setIATAddendaSeq points the mandatory IAT addenda of an entry at a new entry sequence number.
